@@ -80,6 +80,9 @@ def templates():
     out.append(['add-style', 3, 'media'])
     for t in (2, 3, 4, 5):
         out.append(['add-style', t, 'media-nested'])
+    for t in (0, 1, 2, 3):
+        out.append(['add-style', t, 'object-media'])
+        out.append(['add-style', t, 'object-media-nested'])
     out.append(['move-rule', 0])
     out.append(['selector-text', 0, 'n1|y, q|z'])
     out.append(['selector-text', 0, 'y[p|a]'])
@@ -112,7 +115,7 @@ def random_op(rng):
         p = rng.choice(PREFIXES)
         return [k, rng.randrange(4), '@namespace %s"%s";' % (p + ' ' if p else '', rng.choice(URIS))]
     if k == 'add-style':
-        return [k, rng.randrange(len(STYLE_TEXTS)), rng.choice(['top', 'top', 'media', 'media-nested', 'object'])]
+        return [k, rng.randrange(len(STYLE_TEXTS)), rng.choice(['top', 'top', 'media', 'media-nested', 'object', 'object-media', 'object-media-nested'])]
     if k == 'move-rule':
         return [k, rng.randrange(4)]
     if k == 'selector-text':
@@ -122,7 +125,7 @@ def random_op(rng):
     if k == 'detach':
         return [k, rng.randrange(6)]
     if k == 'reattach':
-        return [k, rng.randrange(3), rng.choice(['top', 'media', 'via-other-media', 'via-other-top'])]
+        return [k, rng.randrange(3), rng.choice(['top', 'media', 'media-nested', 'via-other-media', 'via-other-top'])]
     return [k, rng.choice(SEEDS + ['zz|a{top:0}', '@namespace p "urn:u"; p|a{top:0} q|b{left:0}'])]
 
 
@@ -250,11 +253,25 @@ class NsWalk:
                         ms[0].insertRule(text, 0)
                     else:
                         ms[0].add(text)
-                elif op[2] == 'object':
-                    # a rule parsed on its own carries its own prefix table
+                elif op[2].startswith('object'):
+                    # a rule parsed on its own carries its own prefix table; it is put into the sheet, an @media block, or an @media block
+                    # inside an @media block (at any depth the URIs it uses must be declared by the sheet)
                     r = css.CSSStyleRule()
                     r.cssText = (text, {'n1': 'urn:n1', 'n2': 'urn:n2', 'p': 'urn:u', 'q': 'urn:q', 'zz': 'urn:zz'})
-                    sheet.add(r)
+                    if not r.wellformed:
+                        return 'skipped', None  # (log mode: the text was refused silently, there is no rule to insert)
+                    cont = sheet
+                    if op[2] != 'object':
+                        ms = [x for x in sheet.cssRules if type(x).__name__ == 'CSSMediaRule']
+                        if op[2] == 'object-media-nested':
+                            ms = [n for m in ms for n in m.cssRules if type(n).__name__ == 'CSSMediaRule']
+                        if not ms:
+                            return 'skipped', None
+                        cont = ms[-1]
+                    if op[1] % 2:
+                        cont.insertRule(r, 0)
+                    else:
+                        cont.add(r)
                 else:
                     sheet.add(text)
             elif k in ('move-rule', 'selector-text', 'del-style'):
@@ -305,8 +322,10 @@ class NsWalk:
                     # still detached
                 else:
                     cont = sheet
-                    if op[2] == 'media':
+                    if op[2] in ('media', 'media-nested'):
                         ms = [x for x in sheet.cssRules if type(x).__name__ == 'CSSMediaRule']
+                        if op[2] == 'media-nested':
+                            ms = [n for m in ms for n in m.cssRules if type(n).__name__ == 'CSSMediaRule']
                         if not ms:
                             return 'skipped', None
                         cont = ms[0]
@@ -410,7 +429,7 @@ class NsWalk:
         elif outcome == 'rejected' and op[0] in ('ns-del', 'del-nsrule'):
             ctx.count('oracle.used-delete')
         # ---- undeclared prefix in a new style rule
-        if op[0] == 'add-style' and op[2] != 'object':
+        if op[0] == 'add-style' and not op[2].startswith('object'):
             text = STYLE_TEXTS[op[1] % len(STYLE_TEXTS)]
             import re
 
